@@ -36,6 +36,11 @@ CHECKS.update({
    text="OutputVariable.defuzzify is verified for defuzzified sequences of ANY length n >= 1 (a float is n = 1) and every setting: the np.nditer fill-forward loop (invariant over the row index), the masked default substitution, the clipping value setter; every row equals commit(fill) and by the induction lemma (base, step, commit idempotent) equals the sequential per-row `step` on the committed value, hence any split into calls/batches gives the same values; previous_value is the last value held before the call; a disabled variable is untouched; on ValueError (no defuzzifier) or a failing defuzzifier value, previous value and fuzzy output are unchanged; the defuzzifier receives (fuzzy, minimum, maximum). clear() resets value, previous value and fuzzy output. A bounded run-time stand-in (B) replays sequences x splits x 12 settings x failures x clear().",
    note=A_WIRE + " A-KIND: the defuzzifier is assumed to return an ndarray (np.nditer and item assignment need one); that kind clause is checked per concrete defuzzifier under C09/C10/C02, where the pinned tree has a known defect for weighted defuzzifiers."),
 })
+CHECKS.update({
+ "C20": dict(cat="proof", design="8/C20", tech="symbolic execution of the real AST of Settings.context over a finite key universe with symbolic values/None-ness, arbitrary with-body, normal and exceptional exits; z3; static read-at-call-time scan",
+   text="Settings.context is executed symbolically from /repo's AST: for EVERY subset of the seven settings (None-ness symbolic), arbitrary values, an arbitrary with-body (havoc of all settings) and both exits (normal, exception incl. BaseException): inside the context exactly the named settings hold the given values; on leaving, every named setting has its entry value and every unnamed setting keeps whatever the body left (never touched); no KeyError on any path. Nesting to any depth follows because an inner context is part of the outer body (lemma). Static: every read of a setting in the package happens inside a function body at call time and is never cached in an attribute/global/default argument. A bounded run-time stand-in (B) exercises nestings to depth 4 with exceptions at every level.",
+   note="A-CTX: contextlib.contextmanager / generator semantics (code after yield runs once; a body exception is raised at the yield; only finally/except blocks run). A-PY. Solvers and executor soundness."),
+})
 TODO = {}
 def main():
     props = [json.loads(l) for l in open(os.path.join(HERE, "properties.jsonl"))]
